@@ -112,6 +112,8 @@ struct Doc {
     /// directed documents: every observation on them is reported under this key
     collapse: Option<&'static str>,
     raw_idl: Option<&'static str>,
+    /// protobuf document (single file c0.proto) instead of thrift
+    proto: Option<refmodel::pb::PSchema>,
 }
 
 /// Seed-independent directed documents for productions that are known to fail
@@ -135,7 +137,7 @@ fn make_directed(root: &Path, k: usize) -> Doc {
     write_if_changed(&dir.join("idl").join("c0.thrift"), idl);
     let mut schema = Schema::default();
     schema.files.push(refmodel::schema::FileInfo { stem: "c0".into(), namespace: None, includes: vec![] });
-    Doc { name: format!("directed_{}", name), schema, dir, collapse: Some(key), raw_idl: Some(idl) }
+    Doc { name: format!("directed_{}", name), schema, dir, collapse: Some(key), raw_idl: Some(idl), proto: None }
 }
 
 fn make_doc(root: &Path, area: &str, name: &str, seed: u64, profile: &str, hostile: bool) -> Doc {
@@ -147,7 +149,35 @@ fn make_doc(root: &Path, area: &str, name: &str, seed: u64, profile: &str, hosti
     for (fi, f) in schema.files.iter().enumerate() {
         write_if_changed(&dir.join("idl").join(format!("{}.thrift", f.stem)), &schema.render_file(fi));
     }
-    Doc { name: name.to_string(), schema, dir, collapse: None, raw_idl: None }
+    Doc { name: name.to_string(), schema, dir, collapse: None, raw_idl: None, proto: None }
+}
+
+fn make_proto_doc(root: &Path, area: &str, name: &str, seed: u64, proto3: bool) -> Doc {
+    let ps = refmodel::pb::generate(seed, proto3, 5);
+    let dir = root.join("work").join(area).join(name);
+    write_if_changed(&dir.join("idl").join("c0.proto"), &ps.render());
+    let mut schema = Schema::default();
+    schema.files.push(refmodel::schema::FileInfo { stem: "c0".into(), namespace: None, includes: vec![] });
+    Doc { name: name.to_string(), schema, dir, collapse: None, raw_idl: None, proto: Some(ps) }
+}
+
+const DIRECTED_PROTO: [(&str, &str, &str); 1] = [(
+    "oneof_recursion",
+    "c14|proto|message-recursive-through-oneof",
+    "syntax = \"proto3\";\npackage p0;\nmessage Node {\n  oneof kind {\n    int32 leaf = 2;\n    Node child = 3;\n  }\n}\nmessage Tree {\n  Node root = 1;\n}\n",
+)];
+
+fn make_directed_proto(root: &Path, k: usize) -> Doc {
+    let (name, key, idl) = DIRECTED_PROTO[k];
+    let dir = root.join("work").join("c14").join(format!("directed_{}", name));
+    write_if_changed(&dir.join("idl").join("c0.proto"), idl);
+    let mut schema = Schema::default();
+    schema.files.push(refmodel::schema::FileInfo { stem: "c0".into(), namespace: None, includes: vec![] });
+    // a marker schema so that run_pbuild takes the protobuf path
+    let ps = refmodel::pb::PSchema { proto3: true, package: None, msgs: vec![], enums: vec![], services: vec![] };
+    // compiles on the current tree: an ordinary document of the main batch (no collapse key)
+    let _ = key;
+    Doc { name: format!("directed_{}", name), schema, dir, collapse: None, raw_idl: Some(idl), proto: Some(ps) }
 }
 
 struct BuildOut {
@@ -164,7 +194,21 @@ fn run_pbuild(root: &Path, doc: &Doc, cfg: &Cfg, out_file: &Path, envs: &[(Strin
         let _ = std::fs::create_dir_all(d);
     }
     let mut cmd = Command::new(root.join("target/debug/pbuild"));
-    cmd.arg("--lang").arg("thrift").arg("--out").arg(out_file).args(cfg.args(&keep_files)).arg(idl.join("c0.thrift")).env("RUST_BACKTRACE", "0");
+    if doc.proto.is_some() {
+        let mut a = vec![];
+        if cfg.split {
+            a.push("--split".to_string());
+        }
+        if !cfg.change_case {
+            a.push("--no-change-case".to_string());
+        }
+        if cfg.ignore_unused {
+            a.push("--ignore-unused".to_string());
+        }
+        cmd.arg("--lang").arg("proto").arg("--out").arg(out_file).arg("--include").arg(&idl).args(a).arg(idl.join("c0.proto")).env("RUST_BACKTRACE", "0");
+    } else {
+        cmd.arg("--lang").arg("thrift").arg("--out").arg(out_file).args(cfg.args(&keep_files)).arg(idl.join("c0.thrift")).env("RUST_BACKTRACE", "0");
+    }
     for (k, v) in envs {
         cmd.env(k, v);
     }
@@ -185,7 +229,11 @@ fn run_pbuild(root: &Path, doc: &Doc, cfg: &Cfg, out_file: &Path, envs: &[(Strin
 fn idl_json(doc: &Doc) -> Value {
     let mut m = serde_json::Map::new();
     if let Some(t) = doc.raw_idl {
-        m.insert("c0.thrift".into(), json!(t));
+        m.insert(if doc.proto.is_some() { "c0.proto".into() } else { "c0.thrift".into() }, json!(t));
+        return Value::Object(m);
+    }
+    if let Some(ps) = &doc.proto {
+        m.insert("c0.proto".into(), json!(ps.render()));
         return Value::Object(m);
     }
     for (fi, f) in doc.schema.files.iter().enumerate() {
@@ -197,15 +245,77 @@ fn idl_json(doc: &Doc) -> Value {
 // ---------------------------------------------------------------------------
 // C14
 
+fn check_batch(ctx: &Ctx, root: &Path, batch_name: &str, mods: &[(usize, usize, PathBuf)], docs: &[Doc], cfgs: &[Cfg], report: &mut Report) {
+    let batch = root.join("work").join("cases").join(batch_name);
+    let mut main = String::from("#![allow(warnings)]\n");
+    for (d, c, out) in mods {
+        main.push_str(&format!("mod d{}_c{} {{\n    include!(\"{}\");\n}}\n", d, c, out.display()));
+    }
+    main.push_str("fn main() {}\n");
+    write_if_changed(&batch.join("src/main.rs"), &main);
+    write_if_changed(&batch.join("Cargo.toml"), &format!("[package]\nname = \"{}\"\nedition = \"2024\"\nversion = \"0.0.0\"\n\n[dependencies]\npilota = {{ path = \"/repo/pilota\" }}\n\n[workspace]\n", batch_name));
+    write_if_changed(&batch.join(".cargo/config.toml"), &format!("[net]\noffline = true\n\n[build]\ntarget-dir = \"{}/target\"\nrustflags = [\"--cfg\", \"pilota_verif\"]\n", root.display()));
+    if !batch.join("Cargo.lock").exists() {
+        let _ = std::fs::copy(root.join("harness/Cargo.lock"), batch.join("Cargo.lock"));
+    }
+    let out = Command::new("cargo").current_dir(&batch).args(["check", "--offline", "--message-format=short", "-j", &ctx.threads.to_string()]).output();
+    match out {
+        Err(e) => report.frag.inconclusive(&format!("cannot run cargo check: {}", e)),
+        Ok(o) => {
+            let err = String::from_utf8_lossy(&o.stderr).to_string();
+            let mut per_mod: BTreeMap<(usize, usize), Vec<String>> = BTreeMap::new();
+            for line in err.lines() {
+                if !line.contains(": error") {
+                    continue;
+                }
+                for (d, c, out) in mods {
+                    let dir = out.parent().unwrap().display().to_string();
+                    if line.starts_with(&dir) {
+                        per_mod.entry((*d, *c)).or_default().push(line.to_string());
+                        break;
+                    }
+                }
+            }
+            if !o.status.success() && per_mod.is_empty() {
+                report.frag.inconclusive(&format!("cargo check of {} failed without an attributable diagnostic: {}", batch_name, err.chars().rev().take(600).collect::<String>().chars().rev().collect::<String>()));
+            }
+            for (d, c, _) in mods {
+                match per_mod.get(&(*d, *c)) {
+                    None => report.frag.count("rustc.clean"),
+                    Some(lines) => {
+                        let mut seen = vec![];
+                        for l in lines {
+                            let rest = l.splitn(4, ':').nth(3).unwrap_or(l).trim();
+                            let code = rest.split(']').next().unwrap_or("").replace("error[", "").replace("error", "E????");
+                            let msg = rest.split("]: ").nth(1).unwrap_or(rest);
+                            let key = format!("c14|{}|rustc|{}|{}", if docs[*d].proto.is_some() { "proto" } else { "thrift" }, code.trim(), msg_class(msg));
+                            let key = docs[*d].collapse.map(|k| k.to_string()).unwrap_or(key);
+                            if seen.contains(&key) {
+                                continue;
+                            }
+                            seen.push(key.clone());
+                            report.frag.violation(
+                                &key,
+                                &format!("emitted Rust does not type-check for document {} in configuration {}: {}", docs[*d].name, cfgs[*c].name(), rest),
+                                json!({"doc": docs[*d].name, "config": cfgs[*c].name(), "config_index": c, "diagnostics": lines.iter().take(8).collect::<Vec<_>>(), "idl": idl_json(&docs[*d])}),
+                            );
+                        }
+                    }
+                }
+            }
+        }
+    }
+}
+
 fn c14(ctx: &Ctx) -> i32 {
     let root = ctx.root.clone();
     let mut report = Report::new(
         ctx,
         "C14",
         "exploration",
-        "program = document of G_thrift with the HOSTILE naming profile (Rust strict/reserved/path keywords, names colliding after case conversion, names of items the emitted code mentions, leading underscores, all caps) covering structs/unions/exceptions/enums/typedefs/consts/services, containers nested to depth 3, self recursion through optional fields / lists / map values, 1-3 file include graphs, namespaces, defaults, pilota annotations; configuration = {single file, split} x {keep_unknown_fields on/off} x {change_case on/off} x {ignore_unused on/off}. Observation: exit status + stderr of the builder child process, then rustc's diagnostics for the emitted files (cargo check of a crate that include!s every output as its own module, against the pilota runtime of the working tree). distinct = (document feature vector hash, configuration)",
+        "program = document of G_thrift with the HOSTILE naming profile (Rust strict/reserved/path keywords, names colliding after case conversion, names of items the emitted code mentions, leading underscores, all caps) covering structs/unions/exceptions/enums/typedefs/consts/services, and documents of G_proto (proto2/proto3, nested messages and enums, oneofs, maps, every scalar type, recursion), containers nested to depth 3, self recursion through optional fields / lists / map values, 1-3 file include graphs, namespaces, defaults, pilota annotations; configuration = {single file, split} x {keep_unknown_fields on/off} x {change_case on/off} x {ignore_unused on/off}. Observation: exit status + stderr of the builder child process, then rustc's diagnostics for the emitted files (cargo check of a crate that include!s every output as its own module, against the pilota runtime of the working tree). distinct = (document feature vector hash, configuration)",
     );
-    report.assume("G_proto documents are added to this check together with the protobuf pipeline");
+    report.assume("G_proto documents use plain names (proto2 and proto3); the hostile naming profile applies to the Thrift documents");
     report.assume("uniqueness of names is kept in Thrift's own terms (exact spelling per scope); collisions after Rust case conversion are intended");
     let ndocs = ctx.scale(6, 120) as usize;
     let cfgs = Cfg::all();
@@ -223,15 +333,28 @@ fn c14(ctx: &Ctx) -> i32 {
         })
         .collect();
     let mut docs = docs;
+    let nproto = ctx.scale(2, 40) as usize;
+    for k in 0..nproto {
+        let seed = if k < 2 { 0xC14_9000 + k as u64 } else { ctx.seed.wrapping_mul(6007).wrapping_add(k as u64) };
+        docs.push(make_proto_doc(&root, "c14", &format!("p{}", k), seed, k % 2 == 0));
+    }
     let n_random = docs.len();
     for k in 0..DIRECTED.len() {
         docs.push(make_directed(&root, k));
+    }
+    for k in 0..DIRECTED_PROTO.len() {
+        docs.push(make_directed_proto(&root, k));
     }
     let docs = docs;
     let mut features_seen: BTreeMap<String, u64> = BTreeMap::new();
     for d in &docs {
         for f in d.schema.features() {
             *features_seen.entry(f).or_insert(0) += 1;
+        }
+        if let Some(ps) = &d.proto {
+            for f in ps.features() {
+                *features_seen.entry(format!("proto.{}", f)).or_insert(0) += 1;
+            }
         }
     }
     for (f, n) in &features_seen {
@@ -287,6 +410,7 @@ fn c14(ctx: &Ctx) -> i32 {
             let msg_line = r.stderr.lines().skip_while(|l| !l.contains("panicked at")).nth(1).unwrap_or("").to_string();
             let site = panic_line.split("panicked at ").nth(1).unwrap_or("").split(':').next().unwrap_or("").trim_start_matches("/repo/").to_string();
             let key = if !panic_line.is_empty() { format!("c14|thrift|builder-panic|{}|{}", site, msg_class(&msg_line)) } else { format!("c14|thrift|builder-{}|{}", r.status, msg_class(r.stderr.lines().last().unwrap_or(""))) };
+            let key = if docs[*d].proto.is_some() { key.replace("c14|thrift|", "c14|proto|") } else { key };
             let key = docs[*d].collapse.map(|k| k.to_string()).unwrap_or(key);
             report.frag.violation(
                 &key,
@@ -300,78 +424,24 @@ fn c14(ctx: &Ctx) -> i32 {
             report.frag.sample(json!({"doc": d.name, "features": d.schema.features(), "c0.thrift": d.schema.render_file(0).chars().take(700).collect::<String>()}));
         }
     }
-    // type-check everything the builder produced in one crate
-    let batch = root.join("work").join("cases").join("c14batch");
-    let mut main = String::from("#![allow(warnings)]\n");
-    for (d, c, out) in &mods {
-        main.push_str(&format!("mod d{}_c{} {{\n    include!(\"{}\");\n}}\n", d, c, out.display()));
-    }
-    main.push_str("fn main() {}\n");
-    write_if_changed(&batch.join("src/main.rs"), &main);
-    write_if_changed(&batch.join("Cargo.toml"), "[package]\nname = \"c14batch\"\nedition = \"2024\"\nversion = \"0.0.0\"\n\n[dependencies]\npilota = { path = \"/repo/pilota\" }\n\n[workspace]\n");
-    write_if_changed(&batch.join(".cargo/config.toml"), &format!("[net]\noffline = true\n\n[build]\ntarget-dir = \"{}/target\"\nrustflags = [\"--cfg\", \"pilota_verif\"]\n", root.display()));
-    if !batch.join("Cargo.lock").exists() {
-        let _ = std::fs::copy(root.join("harness/Cargo.lock"), batch.join("Cargo.lock"));
-    }
-    let out = Command::new("cargo").current_dir(&batch).args(["check", "--offline", "--message-format=short", "-j", &ctx.threads.to_string()]).output();
-    match out {
-        Err(e) => report.frag.inconclusive(&format!("cannot run cargo check: {}", e)),
-        Ok(o) => {
-            let err = String::from_utf8_lossy(&o.stderr).to_string();
-            let mut per_mod: BTreeMap<(usize, usize), Vec<String>> = BTreeMap::new();
-            let mut unattributed = vec![];
-            for line in err.lines() {
-                if !line.contains(": error") {
-                    continue;
-                }
-                let mut hit = false;
-                for (d, c, out) in &mods {
-                    let dir = out.parent().unwrap().display().to_string();
-                    if line.starts_with(&dir) {
-                        per_mod.entry((*d, *c)).or_default().push(line.to_string());
-                        hit = true;
-                        break;
-                    }
-                }
-                if !hit && !line.starts_with("error: could not compile") && !line.contains("aborting due to") {
-                    unattributed.push(line.to_string());
-                }
-            }
-            if !o.status.success() && per_mod.is_empty() {
-                report.frag.inconclusive(&format!("cargo check failed without an attributable diagnostic: {}", err.chars().rev().take(600).collect::<String>().chars().rev().collect::<String>()));
-            }
-            for (d, c, _) in &mods {
-                match per_mod.get(&(*d, *c)) {
-                    None => report.frag.count("rustc.clean"),
-                    Some(lines) => {
-                        // one violation per distinct diagnostic class
-                        let mut seen = vec![];
-                        for l in lines {
-                            let rest = l.splitn(4, ':').nth(3).unwrap_or(l).trim();
-                            let code = rest.split(']').next().unwrap_or("").replace("error[", "").replace("error", "E????");
-                            let msg = rest.split("]: ").nth(1).unwrap_or(rest);
-                            let key = format!("c14|thrift|rustc|{}|{}", code.trim(), msg_class(msg));
-                            let key = docs[*d].collapse.map(|k| k.to_string()).unwrap_or(key);
-                            if seen.contains(&key) {
-                                continue;
-                            }
-                            seen.push(key.clone());
-                            report.frag.violation(
-                                &key,
-                                &format!("emitted Rust does not type-check for document {} in configuration {}: {}", docs[*d].name, cfgs[*c].name(), rest),
-                                json!({"doc": docs[*d].name, "config": cfgs[*c].name(), "config_index": c, "diagnostics": lines.iter().take(8).collect::<Vec<_>>(), "idl": idl_json(&docs[*d])}),
-                            );
-                        }
-                    }
-                }
-            }
+    // type-check everything the builder produced. Two crates: documents that are known to fail
+    // (directed, recorded findings) are kept apart, because rustc stops after name-resolution
+    // errors and would never report type errors of the other modules.
+    for (batch_name, want_directed) in [("c14batch", false), ("c14batch_directed", true)] {
+        let mods: Vec<(usize, usize, PathBuf)> = mods.iter().filter(|(d, _, _)| docs[*d].collapse.is_some() == want_directed).cloned().collect();
+        if mods.is_empty() {
+            continue;
         }
+        check_batch(ctx, &root, batch_name, &mods, &docs, &cfgs, &mut report);
     }
     for k in ["struct", "union", "exception", "enum", "typedef", "const", "service", "oneway", "throws", "void-method", "list", "set", "map", "container-nesting-3", "include-2-files", "include-3-files", "namespace-rs", "field-default", "required", "optional", "default-requiredness", "self-recursion-optional-field", "struct-as-map-value", "struct-as-list-elem", "enum-as-field", "typedef-as-field", "union-as-field"] {
         report.floor(&format!("feature.{}", k), 1);
     }
     for c in &cfgs {
         report.floor(&format!("config.{}", c.name()), 1);
+    }
+    for k in ["proto.proto2", "proto.proto3", "proto.nested-message", "proto.message-singular", "proto.message-repeated", "proto.message-map-value", "proto.sint32-singular", "proto.enum-singular"] {
+        report.floor(&format!("feature.{}", k), 1);
     }
     report.finish()
 }
@@ -413,24 +483,32 @@ fn c17(ctx: &Ctx) -> i32 {
         ctx,
         "C17",
         "exploration",
-        "case = (corpus, output mode, schedule): thrift corpora with many modules (3-file include graphs, namespaces), hostile names that collide after case conversion, constants and services, built R times in FRESH builder processes (fresh hash seeds) with RAYON_NUM_THREADS in {1,2,3,4,6,8,12,16} and other builders running concurrently, in single-file, split and workspace mode. Oracle: the map relative path -> (content hash, length) is identical across all runs of a (corpus, mode). distinct = (corpus, mode, thread count)",
+        "case = (corpus, output mode, schedule): protobuf corpora (messages with several nested messages/enums/oneofs at two levels) and thrift corpora with many modules (3-file include graphs, namespaces), hostile names that collide after case conversion, constants and services, built R times in FRESH builder processes (fresh hash seeds) with RAYON_NUM_THREADS in {1,2,3,4,6,8,12,16} and other builders running concurrently, in single-file, split and workspace mode. Oracle: the map relative path -> (content hash, length) is identical across all runs of a (corpus, mode). distinct = (corpus, mode, thread count)",
     );
-    report.assume("protobuf corpora are added to this check together with the protobuf pipeline");
+    report.assume("protobuf corpora are built in single-file and split mode (workspace mode is exercised with the thrift corpora)");
     report.assume("schedule diversity comes from process repetition, thread-count variation, concurrent load and the jitter hook (cfg pilota_verif: 0-2 ms sleep per module task keyed by seed and module path); it is sampled, not enumerated; the hook's order log gives the number of distinct task completion orders actually observed");
     let runs = ctx.scale(20, 200) as usize;
     let ncorp = ctx.scale(2, 8) as usize;
     let threads = [1usize, 2, 3, 4, 6, 8, 12, 16];
-    let corpora: Vec<Doc> = (0..ncorp)
+    let mut corpora: Vec<Doc> = (0..ncorp)
         .map(|k| {
             let seed = if k < 2 { 0xC17_0000 + k as u64 } else { ctx.seed.wrapping_mul(104729).wrapping_add(k as u64) };
             make_doc(&root, "c17", &format!("k{}", k), seed, "default", k % 2 == 0)
         })
         .collect();
+    // protobuf corpora: messages with several nested messages / enums / oneofs at two levels
+    for k in 0..ctx.scale(2, 6) as usize {
+        let seed = if k < 2 { 0xC17_9000 + k as u64 } else { ctx.seed.wrapping_mul(15485863).wrapping_add(k as u64) };
+        corpora.push(make_proto_doc(&root, "c17", &format!("pk{}", k), seed, k % 2 == 0));
+    }
     let modes = ["single", "split", "workspace"];
     // jobs: (corpus, mode, run)
     let mut jobs = vec![];
     for c in 0..corpora.len() {
         for (m, _) in modes.iter().enumerate() {
+            if corpora[c].proto.is_some() && modes[m] == "workspace" {
+                continue;
+            }
             for r in 0..runs {
                 jobs.push((c, m, r));
             }
